@@ -14,7 +14,14 @@ def say(*a):
 
 def norm_lines(out):
     # lines compared between the native build and the gcc build of the generated C
-    return [l for l in out.splitlines() if l.split(' ')[0] in ('ASSERT', 'COVER', 'OBS', 'ASSUME-FALSE', 'END')]
+    res = []
+    for l in out.splitlines():
+        w = l.split(' ')
+        if w[0] in ('ASSERT', 'COVER', 'OBS', 'ASSUME-FALSE'):
+            res.append(l)
+        elif w[0] == 'END':
+            res.append(' '.join(w[:2]))   # nondet count only: advisory CHK-FAIL lines differ between the builds
+    return res
 
 
 def is_unwind(pr):
@@ -32,6 +39,17 @@ def classify(pr):
     if is_unwind(pr):
         return 'unwind', d
     return 'builtin', d
+
+
+ADVISORY = ('shift-count', 'float-to-int-range', 'shift distance too large', 'arithmetic overflow on signed shl',
+            'arithmetic overflow on floating-point typecast', 'arithmetic overflow on signed type conversion')
+
+
+def advisory(pr):
+    # poison-producing operations (LLVM: no immediate UB, and the optimizer speculates them): a failed check of this
+    # class counts only when the native UBSan replay confirms it (DESIGN 2.4/2.7)
+    d = pr.get('description') or ''
+    return any(a in d for a in ADVISORY)
 
 
 def ignorable(pr):
@@ -87,7 +105,7 @@ def run_job(job, tier, seed, known):
         R.status = 'BROKEN'
         R.notes.append(str(e))
         return R
-    my_open = [k for k in known if k['status'] == 'open' and k['id'] in job.known_ids()]
+    my_open = [k for k in known if k['status'] == 'open' and k['property'] == job.prop and k['id'] in job.known_ids()]
     main_modes = {k['id']: 1 for k in my_open}
     job.write_kf(main_modes)
 
@@ -176,6 +194,9 @@ def run_job(job, tier, seed, known):
                 R.violations.append((ident, path, loc))
                 R.traces_validated += 1
                 tapes.append(('cex:' + ident, tape))
+            elif advisory(pr):
+                R.advisory = getattr(R, 'advisory', 0) + 1
+                R.ev.setdefault('advisory_unconfirmed', []).append('%s at %s' % (ident, loc))
             else:
                 R.status = worse(R.status, 'BROKEN')
                 R.notes.append('UNCONFIRMED counterexample for %s (%s) at %s: native rc=%d out=%s err=%s' % (
@@ -212,8 +233,7 @@ def run_job(job, tier, seed, known):
                 R.known.append((k['id'], 'KNOWN-FINDING: property=%s %s [%s, witness tape %s]' % (
                     job.prop, k['what'], k['id'], pr.get('tape', [])[:12])))
             else:
-                R.status = worse(R.status, 'BROKEN')
-                R.notes.append('known finding %s: region counterexample does not replay natively' % k['id'])
+                R.notes.append('known finding %s: the region counterexample of this harness does not reproduce on the native build (not reported here)' % k['id'])
         else:
             R.notes.append('known finding %s no longer reproduces in %s (region query: %s)' % (k['id'], job.name, reg['status']))
     # ---- translator validation on tapes
